@@ -19,6 +19,57 @@ fn packet_text(rr_text: &str) -> String {
     format!("P 7 32768 0 0 o0 0 1 {} 0 0", rr_text)
 }
 
+/// encodings that break a structural rule the library enforces (LOC version, SVCB key order, NSEC
+/// window order, inner lengths overrunning the RDATA): (message, rule)
+pub fn rule_breakers(thorough: bool, seed: u64) -> Vec<(Vec<u8>, String)> {
+    let mut r = Rng::new(seed ^ 0xABCD);
+    let mut g = Gen::new(seed ^ 0x5151);
+    let mut res = vec![];
+    let n = if thorough { 4000 } else { 300 };
+    for _ in 0..n {
+        let which = r.below(6);
+        let (kind, rule) = match which { 0 => (24, "loc-version"), 1 => (27, "svcb-keys"), 2 => (28, "svcb-keys"), 3 => (38, "nsec-windows"), 4 => (13, "charstr-overrun"), _ => (*r.pick(&[27usize, 38, 10, 19, 21, 26]), "inner-overrun") };
+        let rd = g.rdata(kind);
+        let rr = ResourceRecord::new(Name::new_unchecked("t"), CLASS::IN, 5, rd);
+        let (mut b, _) = refenc::encode_packet(&packet_text(&text::rr(&rr)), Compress::Never, false, None);
+        let w = walker::walk(&b).unwrap();
+        let e = &w.sections[0][0];
+        let (s, l) = (e.rd_start, e.rd_len);
+        let mutated = match rule {
+            "loc-version" => { b[s] = r.range(1, 255) as u8; true }
+            "svcb-keys" | "nsec-windows" => {
+                // find the triples after the name and make the second key <= the first
+                let name_end = walker::skip_name(&b, if rule == "svcb-keys" { s + 2 } else { s }).unwrap();
+                let (kw, lw) = if rule == "svcb-keys" { (2usize, 2usize) } else { (1, 1) };
+                if name_end + kw + lw <= s + l {
+                    let vlen = if lw == 2 { u16::from_be_bytes([b[name_end + 2], b[name_end + 3]]) as usize } else { b[name_end + 1] as usize };
+                    let second = name_end + kw + lw + vlen;
+                    if second + kw <= s + l {
+                        let equal = r.chance(1, 2);
+                        for i in 0..kw { b[second + i] = if equal { b[name_end + i] } else { 0 }; }
+                        // strictly smaller or equal to the first key (a first key of 0 can only be equalled)
+                        true
+                    } else { false }
+                } else { false }
+            }
+            "charstr-overrun" => { b[s] = b[s].wrapping_add((l as u8).max(1)); (b[s] as usize) + 1 > l }
+            _ => {
+                // bump a length-like byte inside the RDATA beyond what remains: the last string / value length
+                match kind {
+                    10 | 19 => { let second = s + 1 + b[s] as usize; if second < s + l { b[second] = 255; (second + 1 + 255) > s + l } else { false } }
+                    21 => { let third = s + 4; if third < s + l { b[third] = 255; third + 256 > s + l } else { false } }
+                    26 => { b[s + 1] = 255; s + 2 + 255 > s + l }
+                    27 => { let ne = walker::skip_name(&b, s + 2).unwrap(); if ne + 4 <= s + l { b[ne + 2] = 0xFF; b[ne + 3] = 0xFF; true } else { false } }
+                    _ => { let ne = walker::skip_name(&b, s).unwrap(); if ne + 2 <= s + l { b[ne + 1] = 255; ne + 2 + 255 > s + l } else { false } }
+                }
+            }
+        };
+        if !mutated { continue; }
+        res.push((b, rule.to_string()));
+    }
+    res
+}
+
 pub fn c10(tier: &str, seed: u64) -> Vec<Case> {
     let thorough = tier == "thorough";
     let mut g = Gen::new(seed);
@@ -86,50 +137,46 @@ pub fn c10(tier: &str, seed: u64) -> Vec<Case> {
         }
     }
     // structural rules: encodings that break them must be rejected
-    let mut r = Rng::new(seed ^ 0xABCD);
-    let n = if thorough { 4000 } else { 300 };
-    for _ in 0..n {
-        let which = r.below(6);
-        let (kind, rule) = match which { 0 => (24, "loc-version"), 1 => (27, "svcb-keys"), 2 => (28, "svcb-keys"), 3 => (38, "nsec-windows"), 4 => (13, "charstr-overrun"), _ => (*r.pick(&[27usize, 38, 10, 19, 21, 26]), "inner-overrun") };
-        let rd = g.rdata(kind);
-        let rr = ResourceRecord::new(Name::new_unchecked("t"), CLASS::IN, 5, rd);
-        let (mut b, _) = refenc::encode_packet(&packet_text(&text::rr(&rr)), Compress::Never, false, None);
-        let w = walker::walk(&b).unwrap();
-        let e = &w.sections[0][0];
-        let (s, l) = (e.rd_start, e.rd_len);
-        let mutated = match rule {
-            "loc-version" => { b[s] = r.range(1, 255) as u8; true }
-            "svcb-keys" | "nsec-windows" => {
-                // find the triples after the name and make the second key <= the first
-                let name_end = walker::skip_name(&b, if rule == "svcb-keys" { s + 2 } else { s }).unwrap();
-                let (kw, lw) = if rule == "svcb-keys" { (2usize, 2usize) } else { (1, 1) };
-                if name_end + kw + lw <= s + l {
-                    let vlen = if lw == 2 { u16::from_be_bytes([b[name_end + 2], b[name_end + 3]]) as usize } else { b[name_end + 1] as usize };
-                    let second = name_end + kw + lw + vlen;
-                    if second + kw <= s + l {
-                        let equal = r.chance(1, 2);
-                        for i in 0..kw { b[second + i] = if equal { b[name_end + i] } else { 0 }; }
-                        // strictly smaller or equal to the first key (a first key of 0 can only be equalled)
-                        true
-                    } else { false }
-                } else { false }
-            }
-            "charstr-overrun" => { b[s] = b[s].wrapping_add((l as u8).max(1)); (b[s] as usize) + 1 > l }
-            _ => {
-                // bump a length-like byte inside the RDATA beyond what remains: the last string / value length
-                match kind {
-                    10 | 19 => { let second = s + 1 + b[s] as usize; if second < s + l { b[second] = 255; (second + 1 + 255) > s + l } else { false } }
-                    21 => { let third = s + 4; if third < s + l { b[third] = 255; third + 256 > s + l } else { false } }
-                    26 => { b[s + 1] = 255; s + 2 + 255 > s + l }
-                    27 => { let ne = walker::skip_name(&b, s + 2).unwrap(); if ne + 4 <= s + l { b[ne + 2] = 0xFF; b[ne + 3] = 0xFF; true } else { false } }
-                    _ => { let ne = walker::skip_name(&b, s).unwrap(); if ne + 2 <= s + l { b[ne + 1] = 255; ne + 2 + 255 > s + l } else { false } }
-                }
-            }
-        };
-        if !mutated { continue; }
+    for (b, rule) in rule_breakers(thorough, seed) {
         let out = parse_out(&b);
         let mut c = Case::new(format!("parse {}", text::hex(&b)), out.clone()).tag("reject").tag(&format!("rule:{}", rule));
         if class_of(&out) != "err" { c = c.fail(&format!("accepted-{}", rule), format!("an encoding breaking the {} rule was not rejected: {}", rule, &out[..out.len().min(160)])); }
+        v.push(c);
+    }
+    let mut r = Rng::new(seed ^ 0xABCE);
+    // OPT (one of the typed variants): an option whose length, or whose 4-byte head, runs past the
+    // RDATA must be rejected even when enough bytes of the *next* record follow
+    for i in 0..(if thorough { 2000 } else { 150 }) {
+        let mut p = Packet::new_reply(r.next() as u16);
+        let mut opt = g.opt();
+        if opt.opt_codes.is_empty() { opt.opt_codes.push(OPTCode { code: 10, data: r.bytes(8).into() }); }
+        *p.opt_mut() = Some(opt);
+        for _ in 0..r.range(1, 2) { p.additional_records.push(g.rr_of(*r.pick(&[0usize, 1, 12, 13]))); }
+        let (mut b, _) = refenc::encode_packet(&text::packet(&p), Compress::Never, false, Some(0));
+        let w = walker::walk(&b).unwrap();
+        let e = w.sections[2].iter().find(|e| e.typ == 41).unwrap().clone();
+        let following = b.len() - e.next();
+        let rule;
+        if i % 2 == 0 {
+            // last option's length made larger, by no more than what follows the record
+            let mut at = e.rd_start;
+            loop { let l = u16::from_be_bytes([b[at + 2], b[at + 3]]) as usize; if at + 4 + l >= e.next() { break; } at += 4 + l; }
+            let l = u16::from_be_bytes([b[at + 2], b[at + 3]]) as usize;
+            let d = r.range(1, following.min(40) as u64) as usize;
+            b[at + 2..at + 4].copy_from_slice(&((l + d) as u16).to_be_bytes());
+            rule = "opt-option-overrun";
+        } else {
+            // 1..3 surplus bytes inside the RDATA (RDLENGTH adjusted): a truncated option head
+            let d = r.range(1, 3) as usize;
+            let extra = r.bytes(d);
+            let at = e.next();
+            for (k, x) in extra.iter().enumerate() { b.insert(at + k, *x); }
+            b[e.rd_start - 2..e.rd_start].copy_from_slice(&((e.rd_len + d) as u16).to_be_bytes());
+            rule = "opt-option-head-cut";
+        }
+        let out = parse_out(&b);
+        let mut c = Case::new(format!("parse {}", text::hex(&b)), out.clone()).tag("reject").tag(&format!("rule:{}", rule));
+        if class_of(&out) != "err" { c = c.fail(&format!("accepted-{}", rule), format!("an OPT record whose option list does not fit its RDATA was not rejected: {}", &out[..out.len().min(160)])); }
         v.push(c);
     }
     // RFC 1183: the ISDN sub-address is optional
@@ -257,10 +304,13 @@ pub fn c09(tier: &str, seed: u64) -> Vec<Case> {
                     *p.opt_mut() = Some(opt.clone());
                     for _ in 0..extra { p.additional_records.push(g.rr_of(*r.pick(&[0usize, 1, 12, 13]))); }
                     if extra == 2 { p.answers.push(g.rr_of(0)); }
+                    if extra % 2 == 1 { for _ in 0..1 + extra / 4 { p.name_servers.push(g.rr_of(*r.pick(&[2usize, 14, 0]))); } }
                     let ptxt = text::packet(&p);
-                    let built = p.build_bytes_vec();
+                    // both writers: the plain one and, every other time, the compressing one
+                    let comp = extra % 2 == 1 || r.chance(1, 3);
+                    let built = if comp { p.build_bytes_vec_compressed() } else { p.build_bytes_vec() };
                     let out = match &built { Ok(b) => format!("ok {}", text::hex(b)), Err(_) => "err".to_string() };
-                    let mut c = Case::new(format!("build {}", ptxt), out).tag("build").tag(&format!("rcode:{:?}", rc));
+                    let mut c = Case::new(format!("{} {}", if comp { "build.comp" } else { "build" }, ptxt), out).tag(if comp { "build-compressed" } else { "build" }).tag(&format!("rcode:{:?}", rc));
                     if let Ok(b) = &built {
                         // RFC 6891, clause by clause, on the library's bytes
                         match walker::walk(b) {
